@@ -23,8 +23,8 @@ LEVEL = "fault_enumeration"
 MINIMISE_RUNS = 48
 RULE = (
     "A case is one (seeded DSDL type set, language configuration) build - C11, C++14 built-in variant, C++17 std::variant, "
-    "c++17-pmr, c++20; thorough adds C with serialization asserts, target endianness little and the variable-array capacity "
-    "override - and one op script of 1500 (quick) / 12000 (thorough) operations over 4 persistent slots per type: DES "
+    "c++17-pmr, c++20, C with serialization asserts, C for little-endian targets, C with the variable-array capacity override "
+    "and seeded -D capacities; thorough adds two more C++ variants - and one op script of 1500 (quick) / 12000 (thorough) operations over 4 persistent slots per type: DES "
     "(buffers: valid encodings truncated at a byte, extended with garbage, bit-flipped, zero-filled, with corrupted "
     "prefix bytes, spliced, empty, NULL, fully random), SER with capacities 0..max+1 into exact-size allocations, "
     "INIT, POISON (C: memset before a decode; C++: overwrite by copy/move/reconstruct/self-assign/swap), CORRUPT (array "
@@ -52,18 +52,22 @@ CONFIGS = [
     {"name": "cpp-c++17-pmr", "lang": "cpp", "std": "c++17-pmr"},
     {"name": "cpp-c++20", "lang": "cpp", "std": "c++20"},
 ]
-CONFIGS_THOROUGH = CONFIGS + [
+# the C variants are cheap to build (0.6 s) and are part of the quick tier too
+CONFIGS += [
     {"name": "c-asserts", "lang": "c", "std": "c11", "asserts": True},
     {"name": "c-little", "lang": "c", "std": "c11", "endianness": "little"},
     {"name": "c-override", "lang": "c", "std": "c11", "override_varlen": True},
+]
+CONFIGS_THOROUGH = CONFIGS + [
     {"name": "cpp-c++17-little", "lang": "cpp", "std": "c++17", "endianness": "little"},
+    {"name": "cpp-c++14-asserts", "lang": "cpp", "std": "c++14", "asserts": True},
 ]
 HERE = os.path.dirname(os.path.abspath(__file__))
 PROFILE = dict(docs=False, weird_names=False, max_roots=1, min_types=3, max_types=7, max_array=5, max_fields=6, services=True, multi_version=False)
 
 
 def n_cases(tier: str) -> int:
-    return 180 if tier == "quick" else 2700
+    return 240 if tier == "quick" else 2700
 
 
 def budget_s(tier: str) -> float:
@@ -423,7 +427,9 @@ def run_case(case: dict, ctx: dict) -> dict:
     else:
         write_cpp_table(os.path.join(work, "types_cpp_includes.inc"), os.path.join(work, "types_cpp.inc"), types, cfg)
         std = {"c++17-pmr": "c++17"}.get(cfg["std"], cfg["std"])
-        cmd = ["clang++", "-std=" + std] + san + ["-I", gen_dir, "-I", work, os.path.join(HERE, "c04_codec", "harness.cpp"), "-o", exe]
+        if cfg.get("asserts"):
+            defs.append("-DNUNAVUT_ASSERT(x)=assert(x)")
+        cmd = ["clang++", "-std=" + std] + san + defs + ["-I", gen_dir, "-I", work, os.path.join(HERE, "c04_codec", "harness.cpp"), "-o", exe]
     try:
         cp = subprocess.run(cmd, stdout=subprocess.PIPE, stderr=subprocess.PIPE, timeout=240, check=False)
     except subprocess.TimeoutExpired:
